@@ -26,6 +26,8 @@ type caseFile struct {
 	Items  []c17.DItem   `json:"items,omitempty"`
 	Texts  []c17.PkgText `json:"texts,omitempty"`
 	Gen    string        `json:"gen,omitempty"` // a text produced by a named generator (too big to store)
+	// the compiler must refuse the text and its error must contain this (trace TTextErr); also implied by the kind
+	ExpectErr string `json:"expect_err,omitempty"`
 }
 
 func cObs(o TextObs) string {
@@ -181,7 +183,19 @@ func runBuilder(items []c17.DItem, kind string, out *kit.Out) {
 	out.Emit(kit.Case{Coq: coq, Key: kind, Nontrivial: true, Desc: desc, Tags: []string{"stream:builder-api", kind, fmt.Sprintf("builder-accepted:%v", ok)}})
 }
 
+// kinds that must be refused with a stated reason
+func expectedError(kind string) string {
+	if strings.Contains(kind, "semicolons-over-1000") || strings.Contains(kind, "deep-workspaces-semicolons") || strings.Contains(kind, "deep-expression") {
+		return "parentheses nested deeper than"
+	}
+	return ""
+}
+
 func runText(texts []c17.PkgText, kind string, out *kit.Out, store bool) {
+	runTextExpect(texts, kind, out, store, expectedError(kind))
+}
+
+func runTextExpect(texts []c17.PkgText, kind string, out *kit.Out, store bool, expectErr string) {
 	o, _ := Observe(texts)
 	desc := map[string]any{"kind": kind, "observed": o}
 	if store {
@@ -197,7 +211,16 @@ func runText(texts []c17.PkgText, kind string, out *kit.Out, store bool) {
 	if tr == "TTextOk" && !o.Built {
 		tags = append(tags, controlTags(o, texts)...)
 	}
-	out.Emit(kit.Case{Coq: "(" + tr + " " + cObs(o) + ")", Key: kind + " " + o.Stage, Nontrivial: o.Stage != "parse", Desc: desc,
+	coq := "(" + tr + " " + cObs(o) + ")"
+	if expectErr != "" {
+		as := !o.Accepted && strings.Contains(o.Err, expectErr)
+		coq = "(TTextErr " + cObs(o) + " " + c17.CoqBool(as) + ")"
+		desc["expect_err"] = expectErr
+		if !as {
+			tags = append(tags, "expected-refusal-missing")
+		}
+	}
+	out.Emit(kit.Case{Coq: coq, Key: kind + " " + o.Stage, Nontrivial: o.Stage != "parse", Desc: desc,
 		Tags: append(tags, stream, "observed-only")})
 }
 
@@ -215,6 +238,12 @@ func genText(name string) []c17.PkgText {
 	if f := strings.Split(name, ":"); len(f) == 3 && f[0] == "doubling" { // doubling:<levels>:<types|table|unique|grant>
 		if k, err := strconv.Atoi(f[1]); err == nil {
 			return doublingFieldSets(k, f[2])
+		}
+		return nil
+	}
+	if strings.HasPrefix(name, "nested-semicolons:") { // not too big to store: the replay holds the text
+		if k, err := strconv.Atoi(name[len("nested-semicolons:"):]); err == nil {
+			return withSys([]c17.PkgText{{Path: "github.com/verif/app1", Files: []string{"APPLICATION app1(); " + strings.Repeat("WORKSPACE W (; ", k)}}})
 		}
 		return nil
 	}
@@ -257,13 +286,14 @@ func runCaseFile(c caseFile, prefix string, out *kit.Out) error {
 	case len(c.Items) > 0:
 		runBuilder(c.Items, prefix+c.Kind, out)
 	case len(c.Texts) > 0:
-		runText(c.Texts, prefix+c.Kind, out, true)
+		runTextExpect(c.Texts, prefix+c.Kind, out, true, firstNonEmpty(c.ExpectErr, expectedError(c.Kind)))
 	case c.Gen != "":
 		t := genText(c.Gen)
 		if t == nil {
 			return fmt.Errorf("unknown generator %q", c.Gen)
 		}
-		runText(t, prefix+c.Kind, out, !strings.HasPrefix(c.Gen, "big-") && !strings.HasPrefix(c.Gen, "deep-")) // the big ones are not stored in the evidence
+		runTextExpect(t, prefix+c.Kind, out, !strings.HasPrefix(c.Gen, "big-") && !strings.HasPrefix(c.Gen, "deep-"), // the big ones are not stored in the evidence
+			firstNonEmpty(c.ExpectErr, expectedError(c.Kind)))
 	default:
 		return fmt.Errorf("empty case")
 	}
@@ -551,4 +581,11 @@ func includesTwice(texts []c17.PkgText) bool {
 		}
 	}
 	return false
+}
+
+func firstNonEmpty(a, b string) string {
+	if a != "" {
+		return a
+	}
+	return b
 }
